@@ -651,7 +651,10 @@ class parser(object):
             six.raise_from(ParserError(str(e) + ": %s", timestr), e)
 
         if not ignoretz:
-            ret = self._build_tzaware(ret, res, tzinfos)
+            try:
+                ret = self._build_tzaware(ret, res, tzinfos)
+            except ValueError as e:
+                six.raise_from(ParserError(str(e) + ": %s", timestr), e)
 
         if kwargs.get('fuzzy_with_tokens', False):
             return ret, skipped_tokens
